@@ -21,6 +21,7 @@ package grpcgcp
 import (
 	"context"
 	"fmt"
+	"math"
 	"reflect"
 	"strings"
 	"sync"
@@ -131,8 +132,14 @@ func (p *gcpPicker) Pick(info balancer.PickInfo) (balancer.PickResult, error) {
 // by 2^(refresh count since last response) as a time.Duration. This provides
 // exponential backoff when RPCs keep deadline exceeded after consecutive reconnections.
 func (p *gcpPicker) unresponsiveWindow(scRef *subConnRef) time.Duration {
-	factor := uint32(1 << scRef.getRefreshCnt())
-	return time.Millisecond * time.Duration(factor*p.gb.cfg.GetChannelPool().GetUnresponsiveDetectionMs())
+	ms := uint64(p.gb.cfg.GetChannelPool().GetUnresponsiveDetectionMs())
+	cnt := scRef.getRefreshCnt()
+	// ms * 2^cnt milliseconds, saturating instead of wrapping around.
+	const maxMs = uint64(math.MaxInt64 / int64(time.Millisecond))
+	if cnt >= 63 || ms > maxMs>>cnt {
+		return time.Duration(math.MaxInt64)
+	}
+	return time.Duration(ms<<cnt) * time.Millisecond
 }
 
 func (p *gcpPicker) detectUnresponsive(ctx context.Context, scRef *subConnRef, callStarted time.Time, rpcErr error) {
